@@ -2395,9 +2395,9 @@ func TestVerifC20(t *testing.T) {
 	}
 
 	h.initShapes()
-	h.pf("FACT expiry=%d rebroadcast=%d burst=%d interval=%d", int64(graph.DefaultChannelPruneExpiry/time.Second),
+	h.pf("FACT expiry=%d rebroadcast=%d burst=%d interval=%d zslot2=%d", int64(graph.DefaultChannelPruneExpiry/time.Second),
 		int64(c20Rebroadcast/time.Second), DefaultMaxChannelUpdateBurst,
-		int64(DefaultChannelUpdateInterval/time.Second))
+		int64(DefaultChannelUpdateInterval/time.Second), h.probeZombieSlot2())
 
 	thorough := tier == "thorough"
 	rep := func(q, th int) int {
